@@ -139,6 +139,10 @@ VALUES = [
     ("frozenset({1})", frozenset({1})), ("{'a': 1}", {"a": 1}), ("None", None), ("0", 0), ("''", ""), ("2", 2),
     ("{'x': 1, 'y': 2}", {"x": 1, "y": 2}), ("{'y': 2, 'x': 1}", {"y": 2, "x": 1}),
     ("{'p', 'q', 'r'}", {"p", "q", "r"}), ("{'r', 'q', 'p'}", {"r", "q", "p"}),
+    ("{frozenset({1}): 1, frozenset({2}): 2, frozenset({3}): 3}", {frozenset({1}): 1, frozenset({2}): 2, frozenset({3}): 3}),
+    ("{frozenset({3}): 3, frozenset({2}): 2, frozenset({1}): 1}", {frozenset({3}): 3, frozenset({2}): 2, frozenset({1}): 1}),
+    ("{frozenset({1, 2}), frozenset({3}), frozenset({4, 5})}", {frozenset({1, 2}), frozenset({3}), frozenset({4, 5})}),
+    ("{frozenset({4, 5}), frozenset({3}), frozenset({1, 2})}", {frozenset({4, 5}), frozenset({3}), frozenset({1, 2})}),
     ("'L' * 9000", "L" * 9000), ("'L' * 8999 + 'M'", "L" * 8999 + "M"), ("[1, [2, {'k': (3,)}]]", [1, [2, {"k": (3,)}]]),
 ]
 
@@ -250,8 +254,34 @@ def gen_history(rng, n_ops=14):
     return {"funcs": funcs, "pool": pool, "ops": ops}
 
 
+def toggle_defaults(rng, prev, fn):
+    """Equivalent form: keyword-only / trailing parameters left at their default are spelled out with the default
+    value, and explicitly spelled-out defaults are omitted again."""
+    sig = [tuple(x) for x in fn["sig"]]
+    pk = [(i, k, d) for i, (k, d) in enumerate(sig) if k in ("P", "K")]
+    args = list(prev["args"]); kwargs = dict(prev["kwargs"])
+    for i, (k, d) in enumerate(sig):
+        n = NAMES[i] if k not in ("A", "W") else None
+        if k == "O" and d:
+            if n in kwargs and kwargs[n] == "D%d" % i:
+                del kwargs[n]
+            elif n not in kwargs and rng.random() < 0.7:
+                kwargs[n] = "D%d" % i
+    # pos-or-keyword parameters with defaults that were omitted can be spelled out by keyword
+    for j, (i, k, d) in enumerate(pk):
+        n = NAMES[i]
+        if k == "K" and d and j >= len(args):
+            if n in kwargs and kwargs[n] == "D%d" % i:
+                del kwargs[n]
+            elif n not in kwargs and rng.random() < 0.5:
+                kwargs[n] = "D%d" % i
+    return {"fn": prev["fn"], "args": args, "kwargs": kwargs}
+
+
 def regen_form(rng, prev, fn, pool):
-    """Same bound values, another call form (positional <-> keyword, defaults unchanged)."""
+    """Same bound values, another call form (positional <-> keyword, defaults omitted <-> spelled out)."""
+    if rng.random() < 0.5:
+        prev = toggle_defaults(rng, prev, fn)
     sig = [tuple(x) for x in fn["sig"]]
     pk = [(i, k, d) for i, (k, d) in enumerate(sig) if k in ("P", "K")]
     args = list(prev["args"]); kwargs = dict(prev["kwargs"])
@@ -294,8 +324,22 @@ def write_universe(root, funcs):
         fh.write(src)
 
 
+class _Vals:
+    """pool index -> value; a string like 'D2' is the default of parameter 2 spelled out explicitly"""
+
+    def __init__(self, pool):
+        self.v = [VALUES[i][1] for i in pool]
+
+    def __getitem__(self, k):
+        return k if isinstance(k, str) else self.v[k]
+
+
 def _values(pool):
-    return [VALUES[i][1] for i in pool]
+    return _Vals(pool)
+
+
+def _txt(hist, k):
+    return repr(k) if isinstance(k, str) else VALUES[hist["pool"][k]][0]
 
 
 def resolve_target(umod, name):
@@ -436,7 +480,7 @@ def run_history(hist):
                 stats["calls"] += 1
                 if "exc" in rec:
                     findings.append(("C06", "valid_call_rejected", "%s(%s, %s) [%s] raised %s: %s at %s" % (
-                        c["fn"], [VALUES[hist["pool"][k]][0] for k in c["args"]], {k: VALUES[hist["pool"][v]][0] for k, v in c["kwargs"].items()},
+                        c["fn"], [_txt(hist, k) for k in c["args"]], {k: _txt(hist, v) for k, v in c["kwargs"].items()},
                         sig_text(hist, c["fn"]), rec["exc"][0], rec["exc"][1], rec["exc"][2]),
                         {"what": "valid_call_rejected", "exc": rec["exc"][0], "shape": sig_shape(hist, c["fn"])}))
                     continue
@@ -482,8 +526,8 @@ def sig_shape(hist, name):
 
 
 def describe(hist, c):
-    return "%s(%s%s)" % (c["fn"], ", ".join(VALUES[hist["pool"][k]][0] for k in c["args"]),
-                         "".join(", %s=%s" % (k, VALUES[hist["pool"][v]][0]) for k, v in c["kwargs"].items()))
+    return "%s(%s%s)" % (c["fn"], ", ".join(_txt(hist, k) for k in c["args"]),
+                         "".join(", %s=%s" % (k, _txt(hist, v)) for k, v in c["kwargs"].items()))
 
 
 def shrink_history(hist):
